@@ -17,12 +17,13 @@ vars == <<hist, gs, s>>
 Abs(x) == [st |-> x.st, mf |-> x.mf, pf |-> x.pf, mev |-> x.mev, pev |-> x.pev, dlf |-> x.dlf, mode |-> x.mode,
            cur |-> x.cur, handled |-> x.handled, mb |-> Len(x.mb), pb |-> Len(x.pb),
            ob |-> [i \in DOMAIN x.ob |-> x.ob[i].t], hh |-> x.hh # 0, bin |-> x.bin,
-           comb |-> x.comb, mcp |-> x.mcp, mo |-> Len(x.mo), ma |-> Len(x.ma), mt |-> Len(x.mt)]
+           comb |-> x.comb, mcp |-> x.mcp, mo |-> Len(x.mo), ma |-> Len(x.ma), mt |-> Len(x.mt),
+           syn |-> x.syn, hl |-> x.hl]
 View == <<gs, Abs(s)>>
 
 Init == hist = <<>> /\ gs = E!GInit /\ s = I!InitS
 Next == /\ E!GNext
-        /\ s' = [I!Step(s, Len(hist'), hist'[Len(hist')]) EXCEPT !.w = <<>>]
+        /\ s' = [I!Step(s, Len(hist'), hist'[Len(hist')]) EXCEPT !.w = <<>>, !.sy = <<>>]
 Spec == Init /\ [][Next]_vars
 
 Edge == PrintT(<<"EDGE", ToJson([from |-> View, to |-> View', line |-> hist'[Len(hist')]])>>)
